@@ -850,6 +850,13 @@ def c18_item(res, item):
 
 def c18(res):
     rng = random.Random(res.seed)
+    import gentie
+    st = gentie.note(res, "ordinal, __lt__, __le__, __gt__, __ge__, __eq__ of the five rating classes")
+    st_consts = {}
+    if not all(st["ops_ok"].values()):
+        # the static tie of some operator is not established: its numeric literals (tolerances, thresholds) steer extra near-equal pairs
+        _, ops_c = gentie.harvest()
+        st_consts = {k: sorted(c for c in v if 0 < abs(c) < 1) for k, v in ops_c.items() if not st["ops_ok"][k]}
     grid = GRID if res.tier == "quick" else GRID + [rng.uniform(-30, 30) for _ in range(14)]
     pts = [(m, s) for m in grid for s in grid if True]
     pts = rng.sample(pts, size(res, 40, 120))
@@ -874,6 +881,21 @@ def c18(res):
             for b in small:
                 res.case(dict(kind=kind, a=a, b=b, grid="small"))
                 c18_pair(res, kind, a, b, lines, checks)
+        # nearly equal values: pairs a few ulps, 1e-15 ... 1e-6 relative or 1e-12 ... 1e-300 absolute apart are DIFFERENT ratings:
+        # == is exact, the order operators follow the ordinals exactly (a tolerance in either would show here)
+        near = []
+        for (m, s_) in ((25.0, 25.0 / 3.0), (30.0, 4.166666666666667e-4), (-7.5, 2.0), (0.0, 1.0), (1e-12, 3.0)):
+            for eps_ in (2.0 ** -52, 1e-15, 1e-13, 1e-11, 4e-10, 1e-9, 1e-8, 1e-6):
+                near += [((m, s_), (m * (1 + eps_) if m else eps_ * 1e-3, s_)), ((m, s_), (m, s_ * (1 + eps_))),
+                         ((m, s_), (math.nextafter(m, math.inf), s_)), ((m, s_), (m + 3.0 * s_ * eps_, s_ * (1 + eps_)))]
+        for extra in st_consts.get(kind, ()):
+            for f_ in (0.5, 1.0, 2.0):
+                near += [((25.0, 8.0), (25.0 * (1 + extra * f_), 8.0)), ((25.0, 8.0), (25.0 + extra * f_, 8.0)), ((25.0, 8.0), (25.0, 8.0 + extra * f_))]
+        for a_, b_ in near[:: (3 if res.tier == "quick" else 1)]:
+            res.case(dict(kind=kind, a=a_, b=b_, grid="near"))
+            c18_pair(res, kind, a_, b_, lines, checks)
+            c18_pair(res, kind, b_, a_, lines, checks)
+        res.count("near_equal_pairs", len(near))
         c18_foreign(res, kind)
         c18_subclass(res, kind)
         # ordinal and sorting
@@ -1136,9 +1158,14 @@ def c19_special_outcomes(res, rng, fixed=None):
 
 
 def c19_rating_rules(res, rng):
-    for _ in range(40):
+    for it_ in range(96):
         m, s = rng.gauss(25, 8), rng.uniform(0, 9)
-        m2, s2 = rng.choice([(m, s), (m + 1, s), (m, s + 1), (m + 3, s + 1)])
+        if it_ % 12 == 11:
+            m, s = 30.0, 4.166666666666667e-4          # a settled player
+        # unrelated values, and values a few ulps / 1e-13 ... 1e-8 relative apart (different ratings under every class's rules)
+        e_ = rng.choice([2.0 ** -52, 1e-15, 1e-13, 1e-11, 4e-10, 1e-9, 1e-8])
+        m2, s2 = rng.choice([(m, s), (m + 1, s), (m, s + 1), (m + 3, s + 1), (m * (1 + e_), s), (m, s * (1 + e_)),
+                             (math.nextafter(m, math.inf), s), (m + 3.0 * s * e_, s * (1 + e_))])
         rows = {}
         for k in KINDS:
             R = RATING_CLS[k]
@@ -1234,6 +1261,11 @@ def c19(res):
 
 
 def c19_body(res, rng):
+    import gentie
+    st = gentie.note(res, "ordinal, comparison operators, == and default gamma: each of the five classes separately against ONE model definition")
+    if len(set(st["ops_ok"].values())) > 1:
+        res.notes.append("static tie: the rating operators of %s are no longer identified with the shared model definition while the others are: the five copies differ in text there" % (
+            ", ".join(k for k, v in st["ops_ok"].items() if not v)))
     c19_signatures(res)
     c19_rating_rules(res, rng)
     for i in range(size(res, 400, 3000)):
